@@ -7,13 +7,17 @@ VSIM_ASSUME = [
     "FSM and storage do not fail; API used as documented",
 ]
 
-def vsim(test, deciding, rule, quick_checks, thorough_checks, level="exploration", extra_assume=(), shards=None, timeout_q=420, timeout_t=3000, **kw):
+def vsim(test, deciding, rule, quick_checks, thorough_checks, level="exploration", extra_assume=(), shards=None, timeout_q=600, timeout_t=3000, race=False, **kw):
     d = {
         "pkg": "raft", "test": test, "deciding": deciding, "rule": rule, "level": level,
         "assumptions": VSIM_ASSUME + list(extra_assume),
         "quick": {"checks": quick_checks, "timeout": timeout_q, "shrinktime": "15s"},
         "thorough": {"checks": thorough_checks, "timeout": timeout_t, "shrinktime": "60s"},
     }
+    if race:
+        for tier in ("quick", "thorough"):
+            d[tier]["variants"] = [{"race": False, "share": 0.7}, {"race": True, "share": 0.3, "scale": 0.15}]
+        d["assumptions"] = d["assumptions"] + ["race tier: the same generated schedules run under the Go race detector in black-box mode (public API, tracer callbacks, wire monitor only); only interleavings the Go scheduler produces are seen"]
     if shards:
         d["quick"]["shards"] = shards
         d["thorough"]["shards"] = shards
@@ -34,47 +38,50 @@ def warn_classes(required):
 CHECKS = {
     "C01": vsim("TestVerif_C01", ["leader-unique"],
         "cases = rapid-generated schedules (init 2-5 voters, warm-up, 10-50 actions: timer pokes, selective delivery, elections, severs, isolation, crash/restart, membership/transfer actions) on real nodes in a synctest bubble; non-trivial: >=2 elections started and (>=2 leaders elected or a fault happened); distinct by hash of action kinds+nodes, leader-per-term ledger and max commit index",
-        400, 4000, warn=warn_classes({"leader-elected": 0.5, "fault": 0.3})),
+        2000, 20000, warn=warn_classes({"leader-elected": 0.5, "fault": 0.3})),
     "C02": vsim("TestVerif_C02", ["leader-complete", "commit-stable"],
         "cases = generated schedules (profiles repl/member/snap); non-trivial: >=1 entry committed beyond bootstrap and >=2 leaders elected; distinct by trace hash",
-        400, 4000),
+        2000, 20000),
     "C03": vsim("TestVerif_C03", ["fsm-agreement", "exactly-once"],
         "cases = generated schedules (profiles repl/snap/client) with recording FSMs; non-trivial: >=5 updates committed and (leader change or FSM restore); distinct by trace hash",
-        400, 4000),
+        2000, 20000),
     "C04": vsim("TestVerif_C04", ["log-matching", "leader-append-only"],
         "cases = generated schedules (profiles repl/elect); non-trivial: some node truncated >=1 entry, or >=2 leaders with >=3 entries committed; distinct by trace hash",
-        400, 4000),
-    "C05v": vsim("TestVerif_C05v", ["one-vote", "vote-durable", "term-monotonic"], "vsim part of C05 (dev only)", 400, 4000),
+        2000, 20000),
+    "C05v": vsim("TestVerif_C05v", ["one-vote", "vote-durable", "term-monotonic"], "vsim part of C05 (dev only)", 2000, 20000),
     "C06": vsim("TestVerif_C06", ["durable-majority", "ack-durable"],
         "cases = generated schedules over configurations reached by membership changes (1..n voters, non-voters, leader demoting/removing itself) with selective delivery of acknowledgements. Oracle = durability census at EVERY instant a leader raises its commit index (hook inside Raft.setCommitIndex, on the leader's own goroutine): for every voter of the leader's latest configuration the node's directory (live one, or the crash image if it is down) is read the way a reopen would (flushed segment header counts only) and must hold the entry with the same term, or a snapshot covering it; required >= floor(v/2)+1 voters, non-voters never counted, the leader only if it is a voter. Plus wire oracle: a follower that writes a success append/install response already has every entry of that request flushed. non-trivial: a census happened while the configuration entry was uncommitted/just committed or non-voters were present; distinct by trace hash",
-        400, 4000, level="fault_enumeration"),
+        2000, 20000, level="fault_enumeration"),
     "C07": vsim("TestVerif_C07", ["client-semantics", "exactly-once"],
         "cases = generated client histories (UpdateFSM/ReadFSM/DirtyReadFSM/BarrierFSM to arbitrary nodes, bursts, FIFO per node) under leader changes, partitions, transfers, membership changes, restarts; non-trivial: >=1 task failed definitively or ambiguously, >=2 leaders elected, >=3 successful updates; distinct by trace hash",
-        400, 4000),
+        2000, 20000),
     "C08": vsim("TestVerif_C08", ["config-safety", "leader-unique", "leader-complete", "commit-stable"],
         "cases = generated membership request sequences (add non-voter +-promote, promote, demote, remove, force-remove, several per request, stale configs) interleaved with elections, transfers, faults; non-trivial: >=2 configuration entries appended by leaders and >=2 leaders elected; distinct by trace hash",
-        400, 4000),
+        2000, 20000),
     "C09": vsim("TestVerif_C09", ["fsm-agreement", "snapshot-content", "restart", "converge", "no-crash", "log-read"],
         "cases = generated schedules with long logs over 1 KiB segments: snapshots on leaders and followers (also with the snapshot goroutine or a replication goroutine parked at a hook), compaction, followers lagging/partitioned/restarting, installs, followed by a closing phase (release holds, heal, restart every node, 40 s virtual time, probe update, 10 s). Oracles: recording-FSM content == committed update prefix at its applied index after every step (also right after Restore); every snapshot file's content == committed prefix at its index and index <= highest commit index; every restart succeeds; convergence (one leader, own-term commit, every running member caught up); no crash/fault in any node. non-trivial: a compaction happened or a snapshot was installed, and the closing phase ran; distinct by trace hash",
-        300, 3000),
+        1500, 15000),
     "C10": vsim("TestVerif_C10", ["restart", "restart-consistent", "term-monotonic", "vote-durable", "converge", "leader-unique", "leader-complete", "commit-stable", "log-matching", "fsm-agreement", "no-crash"],
         "cases = generated schedules with crash(node, now | at hook point P on its k-th hit) where P ranges over term.persisted, vote.persisted, append.appended/truncated/flushed, commit.advance, snap.fsmdone/premeta/postmeta/retained, install.stored/cleared, snaptaken.precompact, ldr.precompact; the crashing goroutine takes the directory image at that instruction and is parked; restart = New+Serve on a copy of the image. Oracles: restart succeeds; term >= any term reported; granted vote still there; last index >= highest index acknowledged with success / committed as leader (lowered on observed truncation); PrevIndex <= snapshot index <= last index; then closing phase convergence with the C01-C04 oracles on. non-trivial: a node was killed at a hook point and restarted from that image; distinct by trace hash",
-        300, 3000, level="fault_enumeration"),
+        1500, 15000, level="fault_enumeration"),
     "C12": vsim("TestVerif_C12", ["snapshot-label", "info-config"],
         "cases = generated snapshot+membership schedules; TakeSnapshot with the snapshot goroutine parked at its first instruction while further entries incl. configuration entries commit, then released; restarts and installs. Oracle on EVERY meta file published on any disk (hook right after the rename): index/term equal the committed entry, size equals the data file, configuration == newest committed configuration entry with index <= snapshot index; status reports' Latest == newest configuration in log or snapshot label. non-trivial: a snapshot was stored whose configuration in force is not the bootstrap one; distinct by trace hash",
-        400, 4000),
+        2000, 20000),
     "C11": vsim("TestVerif_C11", ["nonvoter-authority", "durable-majority"],
         "cases = generated membership/transfer schedules; non-trivial: a non-voter/non-member had its election timer fire or was sent timeout-now, or a promotion was appended; distinct by trace hash",
-        400, 4000),
+        2000, 20000),
     "C15": vsim("TestVerif_C15", ["no-crash", "serve", "shutdown", "tasks-complete", "log-read"],
         "cases = generated chaos schedules (client + admin tasks, snapshots, compaction, transfers, membership changes, partitions, crash/stop/restart, many 1 KiB segments) ending with heal, restart, 60 s of virtual time and shutdown of every node; non-trivial: >=3 of {snapshot, compaction, install, transfer, membership change, partition, restart}; distinct by trace hash",
-        300, 3000),
+        1500, 15000, race=True),
     "C16": vsim("TestVerif_C16", ["transfer", "leader-unique", "converge"],
         "cases = generated transfer schedules (target given/any/invalid, gated delivery of timeout-now, its reply and the vote traffic, concurrent updates and membership actions); non-trivial: a timeout-now request was written and the transfer task completed; distinct by trace hash",
-        400, 4000),
+        2000, 20000),
+    "C17": vsim("TestVerif_C17", ["converge", "stability"],
+        "cases = generated fault histories from every profile (partitions, crashes at hook points, restarts, lagging followers, compaction leaving followers behind, removed nodes that keep running), then an availability phase: holds released, a drawn superset of a majority of the committed configuration's voters is restarted and keeps exchanging messages, everybody else is cut off or stays down, virtual time runs 40 s (20-40 election timeouts), a probe update is submitted, 20 s more. Oracle (bounded liveness): exactly one leader inside the healthy set, it committed an entry of its own term, the probe completed, every healthy member has the leader's last index and applied index. Stability oracle (time-frozen delivery steps in gated mode): a follower that believed in leader L before the step and still does answers a vote request without transfer permission from another node with leaderKnown and an unchanged term. non-trivial: >=2 faults and the availability phase ran, or the stability oracle judged a request; distinct by trace hash",
+        1500, 15000, extra_assume=["bounded liveness over sampled histories: 'eventually' is not decided; the bound is 60 virtual seconds = 30-60 election timeouts"]),
     "C19": vsim("TestVerif_C19", ["info-order", "info-monotonic", "info-config"],
         "cases = generated per-node request sequences with a GetInfo task handed to every idle node after every step; non-trivial: a node answering >=2 reports processed a snapshot installation, truncation or configuration revert; distinct by trace hash",
-        400, 4000),
+        2000, 20000),
     "C18": {
         "pkg": "raft", "test": "TestVerif_C18", "deciding": ["codec"], "level": "exploration",
         "rule": "cases = rapid-generated values of every wire/disk type (entry, 5 requests, 5 responses with every result incl. unexpectedErr +-OpError, Node, Config 0..6 nodes, snapshotMeta, Replication, Info, task responses of every error kind/result type) with integers from {0,1,2^31+-1,2^32+-1,2^63-1,2^63,2^64-1,random} and byte strings 0..70 KiB, followed by arbitrary trailing bytes; plus append-request streams decoded through bufio in drawn chunk sizes; plus SetIdentity/setVotedFor->reopen for 64-bit values. Oracle: decoded value equals generated value (nil==empty map, times by Equal, errors by message/kind as the property states), decoder consumed exactly the encoding, every proper prefix (all for encodings <=256 bytes, 40 drawn + 64 at each end otherwise) yields an error and no panic. non-trivial: value has a field >= 2^63, an empty or > 4 KiB byte string, an error payload, or >= 3 nodes; distinct by hash of the encoding",
@@ -106,5 +113,12 @@ CHECKS = {
         "assumptions": ["process-kill model: completed file operations survive; power-loss model: only msync'ed/fsync'ed page contents are guaranteed, directory operations are kept in program order (directory-entry loss is not modelled)"],
         "quick": {"checks": 700, "timeout": 300, "shrinktime": "10s", "gomaxprocs": 1},
         "thorough": {"checks": 12000, "timeout": 2400, "shrinktime": "30s", "gomaxprocs": 1},
+    },
+    "C20": {
+        "pkg": "raft", "test": "TestVerif_C20", "deciding": ["identity", "lock", "no-crash"], "level": "exploration",
+        "rule": "cases (isolation) = two 3-node clusters with overlapping node ids on one simulated network inside a synctest bubble; every node has a harness Resolver whose table the schedule scrambles (any node id -> any of the 6 addresses, incl. the same node id of the other cluster), connections are severed to force re-dials, updates flow in both clusters. Wire oracle on every connection: a handshake naming an identity different from the listener's is answered with identityMismatch and nothing else is ever written on that connection by either side; no protocol request is written before the handshake succeeded; no request crosses clusters; every command applied / every log entry of a node belongs to its own cluster. cases (lock) = rapid sequences of SetIdentity(same|other|zero), New, Serve (several instances on one directory), Shutdown inside a bubble; model: at most one Serve holds the directory, later ones return ErrLockExists, SetIdentity while served returns ErrLockExists, stored identity never changes once set (the error value of a conflicting SetIdentity is not judged). non-trivial: >=1 mismatching and >=1 matching handshake (isolation) / a refused second Serve or conflicting SetIdentity (lock); distinct by hash of the action list",
+        "assumptions": ["both clusters run this library", "stale lock files after a kill are an operator matter and not generated"],
+        "quick": {"checks": 60, "timeout": 300, "shrinktime": "10s", "gomaxprocs": 2},
+        "thorough": {"checks": 1500, "timeout": 2400, "shrinktime": "30s", "gomaxprocs": 2},
     },
 }
